@@ -23,7 +23,7 @@ pub static MONITOR: Monitor = Monitor {
     budget: Some(budget),
 };
 
-const DEPTH_TAGS: [&str; 10] = [
+const DEPTH_TAGS: [&str; 20] = [
     "div",
     "blockquote",
     "ul",
@@ -34,12 +34,25 @@ const DEPTH_TAGS: [&str; 10] = [
     "pre",
     "dl",
     "table",
+    "sup",
+    "strong",
+    "code",
+    "s",
+    "i",
+    "del",
+    "ins",
+    "center",
+    "b",
+    "h3",
 ];
+const NT: u64 = DEPTH_TAGS.len() as u64;
 
+/// depth cases: every tag at 1000 and 20000 (quick) and 100000 (thorough),
+/// then mixed pairs (outer tag once, inner tag nested deeply)
 fn depth_cases(tier: Tier) -> u64 {
     match tier {
-        Tier::Quick => 20,
-        Tier::Thorough => 30,
+        Tier::Quick => 2 * NT + 20,
+        Tier::Thorough => 3 * NT + 60,
     }
 }
 
@@ -62,7 +75,14 @@ fn plan(tier: Tier) -> Plan {
 
 fn budget(tier: Tier, idx: u64) -> u64 {
     if idx < depth_cases(tier) {
-        match idx / 10 {
+        let single = match tier {
+            Tier::Quick => 2 * NT,
+            Tier::Thorough => 3 * NT,
+        };
+        if idx >= single {
+            return 60;
+        }
+        match idx / NT {
             0 => 20,
             1 => 60,
             _ => 900,
@@ -221,11 +241,25 @@ fn run_case(seed: u64, idx: u64, tier: Tier, out: &mut CaseOut) {
     let nd = depth_cases(tier);
     if idx < nd {
         // deep nesting: <x>^n
-        let tag = DEPTH_TAGS[(idx % 10) as usize];
-        let n = [1_000usize, 20_000, 100_000][(idx / 10) as usize];
+        let single = match tier {
+            Tier::Quick => 2 * NT,
+            Tier::Thorough => 3 * NT,
+        };
+        let tag = DEPTH_TAGS[(idx % NT) as usize];
         out.inc("class:depth");
+        let (input, n) = if idx < single {
+            let n = [1_000usize, 20_000, 100_000][(idx / NT) as usize];
+            (gen::deep_nest(tag, n), n)
+        } else {
+            // one outer element of one kind around a deep nest of another kind
+            let outer = DEPTH_TAGS[rng.below(DEPTH_TAGS.len())];
+            let n = 5_000;
+            let mut v = format!("<{}>", outer).into_bytes();
+            v.extend_from_slice(&gen::deep_nest(tag, n));
+            out.inc("class:depth_mixed");
+            (v, n)
+        };
         out.max("depth", n as u64);
-        let input = gen::deep_nest(tag, n);
         let cfg = if idx % 2 == 0 {
             Cfg::plain()
         } else {
